@@ -174,6 +174,7 @@ Alloc(h, n) ==
 
 AllocFrom(h, n, u) ==
     /\ AllocFromPre(st, h, u)
+    /\ n <= st.runs[Idx(st, u)][2] + 1      \* larger requests behave like size + 1
     /\ LET ok == AllocFromFits(st, n, u)
        IN  /\ st' = AllocFromSucc(st, h, n, u)
            /\ cl' = IF ok THEN (u :> n) @@ cl ELSE cl
@@ -208,10 +209,10 @@ Grow(k) ==
     /\ last' = [NoCall EXCEPT !.op = "Grow", !.n = k,
                               !.res = IF GrowSucceeds(st, k, Units) THEN 1 ELSE 0]
 
+\* (constant bounds so that TLC reports coverage per action; the guards are in the actions)
 Next == \/ \E h \in 1..Heads, n \in 1..Units : Alloc(h, n)
-        \/ \E h \in 1..Heads, u \in Starts(st) :
-              \E n \in 1..(st.runs[Idx(st, u)][2] + 1) : AllocFrom(h, n, u)
-        \/ \E h \in 1..Heads, u \in DOMAIN cl, rcs \in BOOLEAN : Free(h, u, rcs)
+        \/ \E h \in 1..Heads, n \in 1..Units, u \in 0..(Units - 1) : AllocFrom(h, n, u)
+        \/ \E h \in 1..Heads, u \in 0..(Units - 1), rcs \in BOOLEAN : Free(h, u, rcs)
         \/ \E u \in UncoCand : SetUnco(u) \/ ClearUnco(u)
         \/ \E k \in GrowSteps : Grow(k)
 
